@@ -105,4 +105,35 @@ theorem replace_keeps_other_variants (refs : List Ref) (ri : Option Nat) (ref r 
     r ∈ dedupeRefs (placeRef refs ri ref).1 (placeRef refs ri ref).2 ref ∨ sameVariant r ref = true :=
   store_keeps_other_variants refs ri ref r j hj hne
 
+/-- … and the clean-up of a store never takes a variant away: the only key a StoreResponse ever deletes is the
+    identifier of the reference it overwrote, and only when no reference of the index it has just written
+    names that identifier — the stored response of every other variant stays where it is -/
+theorem store_deletes_only_the_unnamed_replaced (cfg : Cfg) (reqH : Header) (r : Resp) (b : Bool) (key : Str)
+    (refs : List Ref) (t1 t2 : Int) (ri : Option Nat) (tr : List Step) (res : Result)
+    (h : Run (storeResponse cfg reqH r b key refs t1 t2 ri (fun r => .ret (.resp r))) tr res) :
+    ∀ k, Step.delete k ∈ tr → replacedId refs ri = some k ∧
+      ∀ rs ok, Step.setRefs key rs ok ∈ tr → ∀ y ∈ rs, y.id ≠ k := by
+  intro k hk
+  unfold storeResponse at h
+  simp only [] at h
+  split at h
+  · cases h; cases hk
+  · cases h with
+    | setEntry ok h1 =>
+      dsimp only at h1
+      split at h1
+      · cases h1; simp at hk
+      · cases h1 with
+        | setRefs ok2 h2 =>
+          dsimp only at h2
+          rcases dropReplaced_run _ _ _ _ _ _ _ h2 with hr | ⟨old, tr', e, hr, hrep, _, _, hnot⟩
+          · cases hr; simp at hk
+          · subst e; cases hr
+            simp only [List.mem_cons, reduceCtorEq, Step.delete.injEq, List.not_mem_nil, or_false, false_or] at hk
+            subst hk
+            refine ⟨hrep, ?_⟩
+            intro rs ok' hm
+            simp only [List.mem_cons, reduceCtorEq, Step.setRefs.injEq, List.not_mem_nil, or_false, false_or] at hm
+            rw [hm.2.1]; exact hnot
+
 end Httpcache.C08
